@@ -81,6 +81,16 @@ def build(tree, memo=None):
             for a, b in tree["f"].items():
                 setattr(obj, a, build(b, memo))
             return obj
+        if cls.endswith("ExpressionAstNode") and "ghost_value" in tree["f"]:
+            # symbolic expression stub -> a real expression that evaluates to the value (or mentions an undefined name)
+            from a816.parse.ast.nodes import ExpressionAstNode, Term
+            from a816.parse.tokens import Token, TokenType
+            if build(tree["f"]["ghost_defined"], memo):
+                obj = ExpressionAstNode([Term(Token(TokenType.NUMBER, str(build(tree["f"]["ghost_value"], memo))))])
+            else:
+                obj = ExpressionAstNode([Term(Token(TokenType.IDENTIFIER, "verif_undefined_symbol"))])
+            memo[tree["id"]] = obj
+            return obj
         c = resolve(cls)
         obj = c.__new__(c)
         memo[tree["id"]] = obj
